@@ -29,6 +29,95 @@ def sh(cmd, cwd=None, timeout=None, stdin=None):
     return p.returncode, p.stdout, time.time() - t0
 
 
+def _item_tree(op):
+    """Parse the parser-item tokens after ` | ` of an e2e op into nested lists:
+    ('s', tag, value) | ('q', [children]) | ('m', [(k, v), ...]); None if not well formed."""
+    if " | " not in op:
+        return None
+    toks = op.split(" | ", 1)[1].split(" ")
+    i = 0
+    docs = []
+
+    def node():
+        nonlocal i
+        if i >= len(toks) or not toks[i].startswith("@"):
+            return None
+        i += 1
+        t = toks[i]
+        if t == "sc":
+            n = ("s", toks[i + 3], toks[i + 4])
+            i += 5
+            return n
+        if t == "al":
+            i += 2
+            return ("a",)
+        if t == "ss":
+            i += 3
+            items = []
+            while i + 1 < len(toks) and toks[i + 1] != "se":
+                c = node()
+                if c is None:
+                    return None
+                items.append(c)
+            i += 2
+            return ("q", items)
+        if t == "ms":
+            i += 3
+            es = []
+            while i + 1 < len(toks) and toks[i + 1] != "me":
+                k = node()
+                v = node()
+                if k is None or v is None:
+                    return None
+                es.append((k, v))
+            i += 2
+            return ("m", es)
+        return None
+
+    try:
+        while i < len(toks):
+            if toks[i].startswith("!"):
+                i += 1
+                continue
+            if i + 1 < len(toks) and toks[i + 1] in ("S", "E", "d", "D0", "D1", "no"):
+                i += 2
+                continue
+            n = node()
+            if n is None:
+                return None
+            docs.append(n)
+    except IndexError:
+        return None
+    return docs
+
+
+_NULLISH = {"x", "x7e", "x6e756c6c", "x4e756c6c", "x4e554c4c", "x6e554c4c", "x6e756c4c", "x6e754c6c", "x6e754c4c", "x4e754c6c", "x4e556c6c", "x4e554c6c", "x4e556c4c", "x6e556c6c", "x6e556c4c", "x6e554c6c", "x4e754c4c", "x4e756c4c"}
+_NULLTAGS = {"x21216e756c6c", "x216e756c6c", "x7461673a79616d6c2e6f72672c323030323a6e756c6c", "x7461673a79616d6c2e6f72672c323030323a216e756c6c"}
+
+
+def _has_kemn_key(op):
+    """some mapping KEY is a one-entry mapping whose own key is a null-like scalar (finding C05-kemn-…)"""
+    docs = _item_tree(op)
+    if docs is None:
+        return False
+
+    def walk(n):
+        if n[0] == "q":
+            return any(walk(c) for c in n[1])
+        if n[0] == "m":
+            for k, v in n[1]:
+                if k[0] == "m" and len(k[1]) == 1 and k[1][0][0][0] == "s" and (k[1][0][0][2] in _NULLISH or k[1][0][0][1] in _NULLTAGS):
+                    return True
+                if walk(k) or walk(v):
+                    return True
+        return False
+
+    return any(walk(d) for d in docs)
+
+
+MATCHERS = {"kemn_key": _has_kemn_key}
+
+
 class Lock:
     def __init__(self, name):
         os.makedirs(TMP, exist_ok=True)
@@ -228,6 +317,8 @@ class Run:
             if k.get("status") != "known":
                 continue
             if k.get("op") == op or (k.get("op_regex") and re.search(k["op_regex"], op)):
+                return k
+            if k.get("matcher") and MATCHERS[k["matcher"]](op):
                 return k
         return None
 
